@@ -8,6 +8,7 @@
   re-issue against a peer (end-to-end part, on the shared client machine).
 -/
 import Mtv.Lemmas.C17
+import Mtv.Lemmas.C17Held
 namespace Mtv.Client
 
 /-! ## TryExpandError -/
@@ -292,5 +293,53 @@ theorem onRpcError_total (dcl : DCList) (code : Int) (s : Bytes) :
   · simp
 
 example : ∃ e d, onRpcError [] 0 [] = .ok (e, d) ∧ ∀ site, d ≠ .panic site := onRpcError_total _ _ _
+
+/-! ## The error a caller holds is the caller's own (session 9; sequences of replies in one process)
+
+Model: `Mtv/Client/ErrHeld.lean` — a conversion allocates a new cell (`return &ErrResponseCode{…}`), callers hold
+cells and may write into their own. Tied to the code by the operations `c17.ident` / `c17.callers`, which the driver
+answers from `heldAfter` / `returnedWith`. -/
+
+/-- "the conversion is a function of (code, text) only", over SEQUENCES: convert any list of replies one after the
+other in one process, every caller keeping its error — what the callers hold at the END is the list of the
+individual conversions: no later reply (same text with another code, same family with another parameter, anything)
+changes an error handed out earlier. -/
+theorem held_errors_are_the_callers_own (rs : List Reply) : heldAfter rs = rs.map convert := by
+  simp [heldAfter, Proc.run_replies]
+
+/-- … and every conversion RETURNS the conversion of its own reply although callers of earlier replies wrote into the
+errors they were given, for every history of replies and writes. -/
+theorem returned_errors_unaffected_by_holders (ss : List Step) :
+    returnedWith ss = (repliesOf ss).map convert := by
+  simp [returnedWith, Proc.run_atReturn]
+
+/-- the history of `c17.ident mut` (every caller scribbles over its error at once): the conversions return what they
+return without the scribbling -/
+theorem returned_after_scribbling (junk : NativeErr) (rs : List Reply) :
+    returnedWith (scribbledHistory junk 0 rs) = rs.map convert := by
+  rw [returned_errors_unaffected_by_holders, repliesOf_scribbledHistory]
+
+/-- in ANY history of replies and writes, the error of the `i`-th reply, as long as its own caller did not write into
+it, is at the end the conversion of the `i`-th reply — whatever was converted later and whatever other callers wrote
+into theirs. -/
+theorem held_error_kept (ss : List Step) (i : Nat) (hs : ∀ j e, Step.scribble j e ∈ ss → j ≠ i) :
+    (Proc.run {} ss).cells[i]? = ((repliesOf ss).map convert)[i]? := by
+  rw [Proc.run_kept {} ss i rfl rfl hs, Proc.run_atReturn]; simp
+
+/-- "CHAT_WRITE_FORBIDDEN" — a text Telegram sends with the codes 400 and 403 -/
+def cwf : Bytes := [67,72,65,84,95,87,82,73,84,69,95,70,79,82,66,73,68,68,69,78]
+
+-- not vacuous: three replies with the same text; the first caller still holds code 400 after 403 was converted
+example : (heldAfter [(400, cwf), (403, cwf), (400, cwf)]).map
+    (fun o => match o with | .ok e => e.code | _ => 0) = [400, 403, 400] := by decide +kernel
+
+example : (returnedWith (scribbledHistory ⟨-7, [], [], .none⟩ 0 [(400, cwf), (400, cwf)])).map
+    (fun o => match o with | .ok e => e.message | _ => []) = [cwf, cwf] := by decide +kernel
+
+/-- The statement has content: the other design (seeded change C17-m16 — catalogued errors without a parameter
+ready-made, the server's code written into the shared value) does NOT satisfy `held_errors_are_the_callers_own`:
+after the replies 400 and 403 CHAT_WRITE_FORBIDDEN both callers hold code 403. -/
+theorem shared_cells_change_held_errors :
+    heldAfterShared [(400, cwf), (403, cwf)] ≠ [(400, cwf), (403, cwf)].map convert := by decide +kernel
 
 end Mtv.Client
